@@ -3203,6 +3203,16 @@ TABLE_RNS = [
      "abstract": RNS_Q},
     {"file": UR, "fn": "mod_t_and_divide_q_last_inplace", "impl": "RNSTool", "model": "RNSTool.modTAndDivideQLast", "nested_loops": True,
      "abstract": RNS_QB},
+    {"file": UP, "fn": "multiply_operand", "iters": True, "model": "mapM mulOperandMod"},
+    {"file": UR, "fn": "sm_mrq", "impl": "RNSTool", "model": "RNSTool.smMrq", "nested_loops": True,
+     "abstract": [("self.base_Bsk.len()", "bskSize", "Nat"), ("self.base_Bsk.base_at(#)", "baseBsk", "List Modulus"), ("self.coeff_count", "coeffCount", "Nat"),
+                  ("self.m_tilde", "mTilde", "Modulus"), ("self.neg_inv_prod_q_mod_m_tilde", "negInvProdQModMt", "MulOperand"),
+                  ("self.prod_q_mod_Bsk[#]", "prodQModBsk", "List Nat"), ("self.inv_m_tilde_mod_Bsk[#]", "invMtModBsk", "List MulOperand")]},
+    {"file": UB, "fn": "set_uint", "model": "copy of the first len words"},
+    {"file": UR, "fn": "divide_and_round_q_last_ntt_inplace", "impl": "RNSTool", "model": "RNSTool.divideAndRoundQLastNtt", "nested_loops": True,
+     "abstract": RNS_Q, "opaque": ["NTTTables"],
+     "extern": [{"mcall": "inverse_ntt_negacyclic_harvey", "tables": "rns_ntt_tables", "binder": "inttF"},
+                {"mcall": "ntt_negacyclic_harvey_lazy", "tables": "rns_ntt_tables", "binder": "nttLazyF"}]},
     {"file": UR, "fn": "mod_t_and_divide_q_last_ntt_inplace", "impl": "RNSTool", "model": "RNSTool.modTAndDivideQLastNtt", "nested_loops": True,
      "abstract": RNS_QB, "opaque": ["NTTTables"],
      "extern": [{"call": "polymod::intt", "tables": "rns_ntt_tables", "binder": "inttF"}, {"call": "polymod::ntt", "tables": "rns_ntt_tables", "binder": "nttF"}]},
@@ -3214,6 +3224,9 @@ def idxOp (l : List MulOperand) (i : Nat) : R MulOperand := match l[i]? with | s
 def slice (l : List Nat) (a b : Nat) : R (List Nat) := if a ≤ b ∧ b ≤ l.length then .ok ((l.drop a).take (b - a)) else .error .oob
 /-- write a callee's result for `&mut s[a..]` back (the callee cannot change the length of the sub-slice) -/
 def splice (l : List Nat) (a : Nat) (s : List Nat) : List Nat := l.take a ++ s ++ l.drop (a + s.length)
+/-- `x[lo..hi].copy_from_slice(src)` (bounds already checked): panics unless the lengths agree (same definition as in Gen/PolyFns.lean) -/
+def copySlice (l : List Nat) (lo hi : Nat) (src : List Nat) : R (List Nat) :=
+  if src.length = hi - lo then .ok (splice l lo src) else .error .refused
 """
 
 # Gen/ScalingFns.lean (phase 4a): src/util/scaling_variant.rs, the BFV scaling  dest += / -= round(q*m/t)  (C01 / C02 / C07).
